@@ -597,11 +597,51 @@ fn cmd_stress_metrics(args: &[String]) {
     });
     let final_count = r.message_count();
     let snap = r.metrics();
+    // a second, deterministic part: an actor whose handlers come from #[message_handlers] (one of them returns Err
+    // after a tell): every message whose handler was entered counts, whatever the handler returned
+    let (macro_entered, macro_count) = rt.block_on(async {
+        let (r, jh) = rsactor::spawn::<macro_actor::Counter>(macro_actor::Counter { entered: 0 });
+        let _ = r.tell(macro_actor::Add(1, false)).await;
+        let _ = r.tell(macro_actor::Add(2, true)).await;
+        let _ = r.tell(macro_actor::Add(3, false)).await;
+        let entered = r.ask(macro_actor::Get).await.unwrap_or(0) + 1;
+        let _ = r.stop().await;
+        let _ = jh.await;
+        (entered as u64, r.message_count())
+    });
     println!(
         "{}",
         serde_json::json!({"readers": readers, "asks": n, "handled": handled, "message_count": final_count, "snapshot_count": snap.message_count,
+            "macro_actor_handlers_entered": macro_entered, "macro_actor_message_count": macro_count,
             "avg_ns": snap.avg_processing_time.as_nanos() as u64, "max_ns": snap.max_processing_time.as_nanos() as u64, "reads": reads, "decreases_seen": decreased})
     );
+}
+
+#[cfg(feature = "f_metrics")]
+mod macro_actor {
+    use rsactor::{message_handlers, Actor, ActorRef};
+    #[derive(Actor)]
+    pub struct Counter {
+        pub entered: u32,
+    }
+    pub struct Add(pub u32, pub bool);
+    pub struct Get;
+    #[message_handlers]
+    impl Counter {
+        #[handler]
+        async fn on_add(&mut self, m: Add, _: &ActorRef<Self>) -> Result<u32, String> {
+            self.entered += 1;
+            if m.1 {
+                Err(format!("refused {}", m.0))
+            } else {
+                Ok(m.0)
+            }
+        }
+        #[handler]
+        async fn on_get(&mut self, _m: Get, _: &ActorRef<Self>) -> u32 {
+            self.entered
+        }
+    }
 }
 
 #[cfg(not(feature = "f_metrics"))]
